@@ -108,7 +108,11 @@ def enum_bool(ctx: Ctx, h: Harness):
         for cal in ("None", "encodings.calibrators.PolynomialCalibrator([encodings.calibrators.PolynomialCoefficient(1.0, 0), "
                             "encodings.calibrators.PolynomialCoefficient(1.0, 1)])"):
             src = (f"EnumeratedParameterType('E', encodings.IntegerDataEncoding(8, 'unsigned', default_calibrator={cal}), "
-                   f"{{0: 'ZERO', 1: 'ONE', 2: 'TWO'}}).parse_value(pkt)")
+                   f"{{0: 'ZERO', 1: 'ONE', 2: 'TWO', 4: '', 5: '0'}}).parse_value(pkt)")
+            for rv, want_lab in ((4, ""), (5, "0")):       # a listed value whose label is empty / looks false is still listed
+                kind, got = h.outcome(src, PT, pkt=h.packet(bytes([rv]), {}))
+                if not (kind == "ok" and got == want_lab and got.attrs.get("raw_value") == rv):
+                    bad = f"listed raw value {rv} with label {want_lab!r}: {kind} {got!r}; expected the label {want_lab!r}"
             for rv in (0, 1, 2, 3):
                 kind, got = h.outcome(src, PT, pkt=h.packet(bytes([rv]), {}))
                 if rv == 3:
@@ -236,6 +240,41 @@ def polynomial(ctx: Ctx, h: Harness):
         ctx.decide(bad is None, "R8.poly", site, "", bad or "", where=where(fi, fi.node))
 
 
+def declared_spline(ctx: Ctx):
+    """A spline as declared in a document: <SplinePoint raw= calibrated=> attributes may come in any order and may carry the
+    optional `order` attribute; what the loader builds interpolates between the declared (raw, calibrated) pairs."""
+    from ..xmlmodel import make_elem
+    from . import xmlcommon as X
+    fi = ctx.prog.func(f"{CAL}::SplineCalibrator.calibrate")
+    pts = [(0.0, -50.0), (100.0, 0.0), (200.0, 50.0), (300.0, 100.0)]
+    try:
+        hx = X.harness(ctx.prog)
+        X.set_ns_state(hx, None, {})
+    except (Unsupported, Raised) as e:
+        ctx.unknown("R8.spline", f"{CAL}::SplineCalibrator.from_xml", str(e))
+        return
+    spellings = {
+        "raw first": lambda r, c: {"raw": str(r), "calibrated": str(c)},
+        "calibrated first": lambda r, c: {"calibrated": str(c), "raw": str(r)},
+        "with order attribute first": lambda r, c: {"order": "1", "calibrated": str(c), "raw": str(r)},
+    }
+    for name, mk in spellings.items():
+        site = f"{CAL}::SplineCalibrator.from_xml::attributes {name}"
+        el = make_elem("SplineCalibrator", {"order": "1", "extrapolate": "false"},
+                       children=[make_elem("SplinePoint", mk(r, c)) for r, c in pts])
+        bad = None
+        try:
+            for q, want in ((0, -50.0), (50, -25.0), (100, 0.0), (250, 75.0), (300, 100.0)):
+                k, got = hx.outcome("calibrators.SplineCalibrator.from_xml(el).calibrate(q)", "xtce/encodings.py", el=el, q=q)
+                if k != "ok" or abs(got - want) > 1e-9:
+                    bad = f"<SplinePoint> attributes written {name}: calibrate({q}) gives {('raises ' + str(got)) if k != 'ok' else repr(got)}; the declared points give {want}"
+                    break
+        except Unsupported as e:
+            ctx.unknown("R8.spline", site, str(e))
+            continue
+        ctx.decide(bad is None, "R8.spline", site, "", bad or "", where=where(fi, fi.node))
+
+
 def _spline_expected(xs, ys, q, order, extrapolate):
     if q < xs[0] or q > xs[-1]:
         if not extrapolate:
@@ -309,6 +348,7 @@ def check(ctx: Ctx) -> None:
     ctx.guard("R8.enum", PT, enum_bool, ctx, h)
     ctx.guard("R8.poly", CAL, polynomial, ctx, h)
     ctx.guard("R8.spline", CAL, spline, ctx, h)
+    ctx.guard("R8.spline", CAL, declared_spline, ctx)
     roots = [f"{CAL}::SplineCalibrator.calibrate", f"{CAL}::PolynomialCalibrator.calibrate",
              f"{CAL}::ContextCalibrator.calibrate"]
     ctx.guard("R8.pure", CAL, effect_rule, ctx, CallGraph(ctx.prog), roots, "R8.pure", "calibration")
